@@ -164,7 +164,7 @@ impl Check for C08 {
         "C08"
     }
     fn plan(&self, tier: Tier) -> Plan {
-        let mut p = Plan::new(tier.pick(8_000, 200_000), tier.pick(30.0, 480.0));
+        let mut p = Plan::new(tier.pick(160_000, 16_000_000), tier.pick(30.0, 420.0));
         p.mandatory = 1;
         p.cpu_budget_s = 120.0;
         p
